@@ -21,7 +21,9 @@ from spv.harness import Harness, result
 
 META = {
     "level": "model_checking",
-    "claim": "For every number of packets n = 0..13 (thorough 0..24) the real describe-packets row selection adds, in order, every packet exactly once "
+    "claim": "END TO END: the real describe-packets body on the real framer over a symbolic file of 1, 2 and 11 (thorough also 3, 10, 12) packets whose data "
+             "lengths are symbolic 1..65536: the rows are exactly the packets in order (first five, ellipsis, last five beyond ten), each row carrying "
+             "that packet's own length, sequence count and APID.  With the framer stubbed: for every number of packets n = 0..13 (thorough 0..24) the real describe-packets row selection adds, in order, every packet exactly once "
              "when n <= 10 and otherwise the first five, one ellipsis row and the last five; for every n and a symbolic index i in [-1, n+1] the real "
              "parse command shows exactly packet i when 0 <= i < n and prints the out-of-range message otherwise (negative indices are not part of "
              "the property and are not asserted on), and no exception escapes either command.",
@@ -180,6 +182,63 @@ class Parse(Harness):
                       observe={"shown": shown, "oor": oor, "exc": exc, "cls": "ran"}, inputs={"n": n, "i": bv.SymInt(i)})
 
 
+class DescribeE2E(Harness):
+    """describe-packets END TO END on the LIA / views back end: the real command body runs the REAL framer on a symbolic file of P packets whose
+    lengths are symbolic (1..65536 data bytes each), so a framing slip that only shows for particular lengths is visible in the listing"""
+    kind = "describe-e2e"
+    validate = False
+
+    def run(self, ctx):
+        import re as _re
+        from pathlib import Path
+        from space_packet_parser import cli
+        from spv import lia
+        P = self.job["params"]["P"]
+        Ls = [z3.Int(f"L{i}") for i in range(P)]
+        offs, o = [], z3.IntVal(0)
+        for i in range(P):
+            ctx.assume(z3.And(Ls[i] >= 1, Ls[i] <= 65536))
+            offs.append(o)
+            ctx.assume(lia.sel(o + 4) * 256 + lia.sel(o + 5) == Ls[i] - 1)
+            o = o + 6 + Ls[i]
+        T = z3.simplify(o)
+        rec = Recorder()
+        saved = {k: getattr(cli, k) for k in ("Table", "console", "pretty")}
+        had_open = "open" in cli.__dict__
+        cli.Table, cli.console, cli.pretty = rec.table_cls(), FakeConsole(rec), FakePretty(rec)
+        cli.open = lambda path, mode="rb": lia.SymFile(T, 4 * P + 4)
+        try:
+            try:
+                cli.describe_packets.callback(Path("symbolic.bin"))
+                exc = None
+            except Exception as e:    # noqa: BLE001
+                exc = type(e).__name__
+        finally:
+            for k, v in saved.items():
+                setattr(cli, k, v)
+            if not had_open:
+                del cli.open
+        ks = expected_rows(P)
+        obl = [("no exception", exc is None), (f"{P} packets: {len(ks)} rows", len(rec.rows) == len(ks))]
+
+        def term(cell):
+            m = _re.fullmatch(r"<lint#(\d+)>", cell)
+            return lia.TAGS[int(m.group(1))] if m else z3.IntVal(int(cell))
+        if len(rec.rows) == len(ks):
+            for row, k in zip(rec.rows, ks):
+                if k == "...":
+                    obl.append(("ellipsis row", all(c == "..." for c in row)))
+                    continue
+                ok = len(row) == 7 and not any(c == "..." for c in row)
+                obl.append((f"row for packet {k} has seven cells", ok))
+                if ok:
+                    seq = (lia.sel(offs[k] + 2) % 64) * 256 + lia.sel(offs[k] + 3)
+                    apid = (lia.sel(offs[k]) % 8) * 256 + lia.sel(offs[k] + 1)
+                    obl.append((f"row {k}: PKTLEN is packet {k}'s length field", term(row[6]) == Ls[k] - 1))
+                    obl.append((f"row {k}: SEQCNT / APID are packet {k}'s", z3.And(term(row[5]) == seq, term(row[3]) == apid)))
+        return result(f"P{P}", obl, observe={"cls": "ran"}, inputs={"P": P, **{f"L{i}": lia.LInt(Ls[i]) for i in range(P)}})
+
+
 class Twin(Parse):
     def run(self, ctx):
         r = super().run(ctx)
@@ -188,6 +247,11 @@ class Twin(Parse):
 
 
 def make(job):
+    if job["h"] == "describe-e2e":
+        from spv import lia
+        lia.install()
+        h = DescribeE2E(job)
+        return h
     lib = bv.install(128)
     h = {"describe": Describe, "parse": Parse, "twin": Twin}[job["h"]](job)
     fd, path = tempfile.mkstemp(prefix="spv_c19_")
@@ -202,7 +266,8 @@ def make(job):
 def jobs(tier):
     N = 13 if tier == "quick" else 24
     return [{"name": "describe", "h": "describe", "params": {"N": N}, "split": 8, "chunk": 20, "must_reach": ["n0", "n10", "n11"]},
-            {"name": "parse", "h": "parse", "params": {"N": N}, "split": 16, "chunk": 30, "must_reach": ["shown", "oor"]}]
+            {"name": "parse", "h": "parse", "params": {"N": N}, "split": 16, "chunk": 30, "must_reach": ["shown", "oor"]}] + \
+        [{"name": f"describe-e2e-P{P}", "h": "describe-e2e", "params": {"P": P}, "split": 8, "chunk": 20, "must_reach": [f"P{P}"]} for P in ((1, 2, 11) if tier == "quick" else (1, 2, 3, 10, 11, 12))]
 
 
 def vacuity_jobs():
@@ -259,8 +324,17 @@ def real_rows(blobs):
     return rows, exc
 
 
+def _e2e_blobs(i):
+    from space_packet_parser import packets
+    import hashlib
+    return [bytes(packets.create_ccsds_packet(hashlib.shake_128(bytes([j])).digest(i[f"L{j}"]), apid=100 + j, sequence_count=j)) for j in range(i["P"])]
+
+
 def concrete(req):
     i = req["input"]
+    if req["kind"] == "describe-e2e":
+        rows, exc = real_rows(_e2e_blobs(i))
+        return {"cls": "ran", "rows": len(rows), "exc": exc, "row_list": rows}
     if req["kind"] == "describe":
         rows, exc = real_rows([bytes.fromhex(p["hex"]) for p in i["packets"]])
         return {"cls": "ran", "rows": len(rows), "exc": exc, "row_list": rows}
@@ -275,6 +349,13 @@ def judge(req, got):
     if got.get("cls") in ("WORKER-ERROR", "WORKER-DIED", "TIMEOUT"):
         return "error", str(got)[:300]
     i = req["input"]
+    if req["kind"] == "describe-e2e":
+        want = [header_tuple(b) if k != "..." else "..." for k, b in zip(expected_rows(i["P"]), [None] * 99)] if False else None
+        blobs = _e2e_blobs(i)
+        want = [header_tuple(blobs[k]) if k != "..." else "..." for k in expected_rows(i["P"])]
+        if got.get("exc") or got.get("row_list") != want:
+            return "reproduced", f"spp describe-packets on a file of {i['P']} packets with data lengths {[i[f'L{j}'] for j in range(i['P'])]}: rows {str(got.get('row_list'))[:300]} exc={got.get('exc')}; expected {str(want)[:300]}"
+        return "not-reproduced", "rows as specified"
     if req["kind"] == "describe":
         blobs = [bytes.fromhex(p["hex"]) for p in i["packets"]]
         want = [header_tuple(blobs[k]) if k != "..." else "..." for k in expected_rows(i["n"])]
